@@ -24,6 +24,9 @@ checks = {
  "C16": dict(text="Seeded exploration: thousands of generated programs x partitions into 2-5 modules forming import DAGs (chains, diamonds, fan-in) x text layouts x seeded schedules of compiles (in-process and real nslc.py children with their own hash seeds), re-compilations, links under several add sets/orders and loader kinds (also through nslr.py), duplicate-definition steps and a second store generation, on a private simulated module store; every linked program is compared with the same functions compiled as one module, every Load(name) is logged (exactly-once), canonical programs are compared across add orders, duplicates must be rejected, Link() has a step budget. Evidence for the seeds run, not proof.",
              note="Self-consistency oracle: the one-module compilation is the reference. Cross-module references restricted to exported functions with scalar parameters and globals of directly imported modules. Four genuine defects found by this check were repaired in /repo (known_findings.json, status fixed).",
              tech="deterministic simulation: seeded compile/store/link schedules over a simulated module store, hash seeds, exactly-once load log, refinement against the one-module program"),
+ "C18": dict(text="Seeded exploration: each run schedules 2-6 simulated OS processes (real child interpreters, one at a time), each with its own PYTHONHASHSEED, private working-tree copy whose PLY parser-table cache is valid / absent / stale / unwritable, cwd, and a history of 5-40 compilations with a fresh Compiler() per job over a corpus that includes rejected, raising and sys.exit-ing sources; a history check requires every observation (outcome class, SHA-256 of IR listing and wasm bytes) of one (source, options) key to be equal across positions, predecessors, processes, hash seeds, cache states and cwds. Evidence for the seeds run, not proof.",
+             note="Heap addresses are not behind a seam (address-ordered iteration shows only statistically across processes). Exception messages are not compared. Torn table files are a non-judged probe.",
+             tech="deterministic simulation: seeded compilation histories in simulated processes x hash seeds x parser-table-cache states; history check that all observations of one key agree"),
 }
 m = {
  "version": 1,
